@@ -438,7 +438,7 @@ pub fn grammar_ranges(cx: &mut Ctx, g: &Grammar) {
             for s in &b.block.stmts {
                 let syn::Stmt::Local(l) = s else { continue };
                 let Some(init) = &l.init else { continue };
-                let t = sm::tsc(&init.expr);
+                let t = sm::tsx(&init.expr);
                 if !t.contains("Arguments::empty(") {
                     continue;
                 }
@@ -489,7 +489,7 @@ pub fn grammar_ranges(cx: &mut Ctx, g: &Grammar) {
     // ---- R4 order-preserving operations on lists
     let bad_ops = [".rev()", ".sort", ".reverse()", ".insert(", ".swap(", ".dedup", ".swap_remove(", ".rotate", ".retain("];
     for (d, a, e) in actions(g) {
-        let t = sm::tsc(e);
+        let t = sm::tsx(e);
         for op in bad_ops {
             if t.contains(op) {
                 if d.name == "IfStatement" && op == ".rev()" {
@@ -522,14 +522,14 @@ fn string_ranges(cx: &mut Ctx, g: &Grammar) {
     cx.floor("C02.R5", 8);
     // range(): TextRange::new(self.start, self.end)
     match s.method("StringParser", "range") {
-        Some(m) if sm::tsc(&m.block) == "{TextRange::new(self.start,self.end)}" => cx.ok("C02.R5", "StringParser::range() = TextRange::new(self.start, self.end)"),
+        Some(m) if sm::tsx(&m.block) == "{TextRange::new(self.start,self.end)}" => cx.ok("C02.R5", "StringParser::range() = TextRange::new(self.start, self.end)"),
         Some(m) => cx.fail("C02.R5", "C02.R5/StringParser::range", &s.loc(m), &format!("StringParser::range() is `{}`", sm::tsc(&m.block))),
         None => cx.anchor_missing("C02.R5", "StringParser::range"),
     }
     // new(): start/end fields are the parameters
     match s.method("StringParser", "new") {
         Some(m) => {
-            let t = sm::tsc(&m.block);
+            let t = sm::tsx(&m.block);
             if t.contains("start,end,location:start+offset") {
                 cx.ok("C02.R5", "StringParser::new stores start, end and location = start + offset");
             } else {
@@ -546,7 +546,7 @@ fn string_ranges(cx: &mut Ctx, g: &Grammar) {
         None => cx.anchor_missing("C02.R5", "StringParser::new"),
     }
     if let Some(ps) = s.free_fns("parse_strings").into_iter().next() {
-        let t = sm::tsc(&ps.block);
+        let t = sm::tsx(&ps.block);
         if t.contains("letinitial_start=values[0].0;") && t.contains("letlast_end=values.last().unwrap().2;") {
             cx.ok("C02.R5", "initial_start = values[0].0, last_end = values.last().2");
         } else {
@@ -595,7 +595,7 @@ fn string_ranges(cx: &mut Ctx, g: &Grammar) {
     // grammar call sites: parse_strings(s) where s is bound to (@L string @R)+
     let mut sites = 0;
     for (d, a, e) in actions(g) {
-        let t = sm::tsc(e);
+        let t = sm::tsx(e);
         if !t.contains("parse_strings(") {
             continue;
         }
@@ -673,7 +673,7 @@ fn string_ranges(cx: &mut Ctx, g: &Grammar) {
         None => cx.anchor_missing("C02.R6", "parse_formatted_value"),
         Some(m) => {
             // `let location = self.get_pos();` must precede the first next_char call
-            let t = sm::tsc(&m.block);
+            let t = sm::tsx(&m.block);
             let p_loc = t.find("letlocation=self.get_pos();");
             let p_next = t.find("self.next_char()");
             let calls_ok = t.matches("parse_fstring_expr(&expression,location)").count() == 2;
@@ -692,7 +692,7 @@ fn string_ranges(cx: &mut Ctx, g: &Grammar) {
     match s.method("StringParser", "next_char") {
         None => cx.anchor_missing("C02.R7", "StringParser::next_char"),
         Some(m) => {
-            let t = sm::tsc(&m.block);
+            let t = sm::tsx(&m.block);
             if t == "{letc=self.chars.next()?;self.location+=c.text_len();Some(c)}" {
                 cx.ok("C02.R7b", "StringParser::next_char: one chars.next(), location += c.text_len()");
             } else {
@@ -850,7 +850,7 @@ fn text_range_literals(cx: &mut Ctx) {
     // new() asserts start <= end
     match range_rs.method("TextRange", "new") {
         Some(m) => {
-            let t = sm::tsc(&m.block);
+            let t = sm::tsx(&m.block);
             if t.contains("assert!(start<=end)") || t.contains("assert!(start.raw<=end.raw)") {
                 cx.ok(rule, "TextRange::new asserts start <= end");
             } else {
